@@ -578,7 +578,7 @@ fn main() {
                 let mk = move || {
                     let v = var as u32;
                     let mut c = KeyspaceCreateOptions::default()
-                        .max_memtable_size(1_000_000 * (var + 1))
+                        .max_memtable_size(5_000_000_000 + 1_000_000 * (var + 1))
                         .manual_journal_persist(var % 2 == 1)
                         .expect_point_read_hits(var % 2 == 0)
                         .data_block_size_policy(BlockSizePolicy::new([2_048 * (v + 1), 16_384]))
@@ -597,13 +597,13 @@ fn main() {
                         ]));
                     match kind.as_str() {
                         "fifo" => {
-                            c = c.compaction_strategy(std::sync::Arc::new(fjall::compaction::Fifo::new(1_000_000_000 + var, Some(3_600 + var))));
+                            c = c.compaction_strategy(std::sync::Arc::new(fjall::compaction::Fifo::new(5_000_000_000 + var, Some(5_000_003_600 + var))));
                         }
                         "blob" => {
                             c = c.with_kv_separation(Some(
                                 fjall::KvSeparationOptions::default()
                                     .separation_threshold(70_000 + v)
-                                    .file_target_size(1_000_000 + var)
+                                    .file_target_size(6_442_450_944 + var)
                                     .staleness_threshold(0.5)
                                     .age_cutoff(0.25)
                                     .compression(fjall::CompressionType::None),
@@ -611,7 +611,7 @@ fn main() {
                         }
                         "leveled" => {
                             c = c.compaction_strategy(std::sync::Arc::new(
-                                fjall::compaction::Leveled::default().with_l0_threshold(5 + v as u8).with_table_target_size(32_000_000 + var).with_level_ratio_policy(vec![8.0, 6.0]),
+                                fjall::compaction::Leveled::default().with_l0_threshold(5 + v as u8).with_table_target_size(4_300_000_000 + var).with_level_ratio_policy(vec![8.0, 6.0]),
                             ));
                         }
                         _ => {}
